@@ -503,8 +503,20 @@ def _dyadic(d, lo, hi):
 def _os_cases(d):
     SR = _sr()
     kind = d.pick(["generic", "generic", "scaled", "scaled", "textbook",
-                                 "dyadic", "tie"])
+                                 "dyadic", "tie", "neartie", "neartie"])
     r = d.int(1, 50) if d.bool() else d.int(1, 6)
+    if kind == "neartie":
+        # c a hair below / above the confidence that n0 samples give exactly: the continuous root of the sample-size
+        # equation lies within ~1e-9 .. 1e-3 of the integer n0, so the answer (n0 or n0 + 1) hangs on how well the
+        # root is located before it is rounded up
+        r = d.int(1, 30)
+        n0 = max(r, int(round(math.exp(d.u(math.log(r + 1), math.log(600))))))
+        p = d.pick(TEXT_P) if d.bool() else _logit_float(d, 0.3, XHI)
+        t = float(SR.tail_ge(n0, r, p))
+        c = t * (1.0 + d.pick([-1e-9, 1e-9, -1e-6, 1e-6, -1e-4, 1e-4, -1e-12, 1e-12]))
+        if XLO <= c <= XHI:
+            return {"kind": kind, "p": p, "c": c, "n": n0, "r": r}
+        kind = "generic"
     if kind == "tie":
         # c := exact tail (representable): the equality case of the definition
         m = d.int(1, 4)
